@@ -183,8 +183,8 @@ static void mutate_tree(void)
             if (nl && how == 0) { size_t k = (size_t) (nl - f->data.b) + 1; memmove(f->data.b, f->data.b + k, f->data.n - k + 1); f->data.n -= k; }
             else if (how == 1 && f->data.n > 3) f->data.b[1] = 'L';
             else if (how == 2 && nl) { *nl = ' '; }
-            else if (how == 3 && nl) { size_t at = (size_t) (nl - f->data.b); buf_insert(&f->data, at - 1, ".99.2", 5); }
-            else if (nl) { size_t at = (size_t) (nl - f->data.b) - 1; memmove(f->data.b + at, f->data.b + at + 1, f->data.n - at); f->data.n--; }      /* drop the '>' */
+            else if (how == 3 && nl && nl > f->data.b) { size_t at = (size_t) (nl - f->data.b); buf_insert(&f->data, at - 1, ".99.2", 5); }
+            else if (nl && nl > f->data.b) { size_t at = (size_t) (nl - f->data.b) - 1; memmove(f->data.b + at, f->data.b + at + 1, f->data.n - at); f->data.n--; }      /* drop the '>' */
             vh_count("magic_damaged", 1);
             break;
         }
@@ -247,6 +247,7 @@ static void keep_magic_lines_short(void)
         int ok = 1;
         while (e < b->n && b->b[e] != '>' && b->b[e] != '\n') { if (!(isdigit((unsigned char) b->b[e]) || b->b[e] == '.')) ok = 0; e++; }
         if (e > 8 && !isdigit((unsigned char) b->b[8])) ok = 0;
+        if (e == 8 && (e >= b->n || b->b[e] != '>')) ok = 0;          /* without a '>' the line end itself becomes the version text */
         if (e > 100) ok = 0;
         if (!ok) {
             /* replace the damaged version text by a well-formed one, keep everything from the terminator on */
